@@ -161,19 +161,23 @@ theorem chain_levels (p : StorageP) (g : Grid) (n : Nat) (x : Vec)
     strictInc (a :: l) = true → lev p g n x a = blockStart p a →
     (∀ ae ∈ blockPairs (a :: l), LevelIneq p g n x ae.1 ae.2) →
     (∀ t, a ≤ t → t < lastOf a l → 0 ≤ lev p g n x (t + 1) ∧ lev p g n x (t + 1) ≤ p.size) ∧
-    (∀ e ∈ l, lev p g n x e = p.endLevel) := by
+    (∀ e ∈ l, lev p g n x e = p.endLevel) ∧
+    (∀ ae ∈ blockPairs (a :: l), lev p g n x ae.1 = blockStart p ae.1) := by
   induction l with
-  | nil => intro a _ _ _; exact ⟨fun t h1 h2 => by simp [lastOf] at h2; omega, fun e he => by simp at he⟩
+  | nil =>
+    intro a _ _ _
+    exact ⟨fun t h1 h2 => by simp [lastOf] at h2; omega, fun e he => by simp at he,
+      fun ae hae => by simp [blockPairs] at hae⟩
   | cons b l ih =>
     intro a hs h0 hI
     simp only [strictInc, Bool.and_eq_true, decide_eq_true_eq] at hs
-    rw [blockPairs_cons2] at hI
+    rw [blockPairs_cons2] at hI ⊢
     obtain ⟨hb1, hb2⟩ := block_levels p g n x a b hs.1 hend h0 (hI (a, b) (by simp))
     have hb0 : lev p g n x b = blockStart p b := by
       have : b ≠ 0 := by omega
       simp [blockStart, this, hb2]
-    obtain ⟨i1, i2⟩ := ih b hs.2 hb0 (fun ae hae => hI ae (List.mem_cons_of_mem _ hae))
-    refine ⟨?_, ?_⟩
+    obtain ⟨i1, i2, i3⟩ := ih b hs.2 hb0 (fun ae hae => hI ae (List.mem_cons_of_mem _ hae))
+    refine ⟨?_, ?_, ?_⟩
     · intro t h1 h2
       by_cases ht : t < b
       · exact hb1 t h1 ht
@@ -182,6 +186,23 @@ theorem chain_levels (p : StorageP) (g : Grid) (n : Nat) (x : Vec)
       rcases List.mem_cons.mp he with h | h
       · rw [h]; exact hb2
       · exact i2 e h
+    · intro ae hae
+      rcases List.mem_cons.mp hae with h | h
+      · rw [h]; exact h0
+      · exact i3 ae h
+
+/-- every step of the window lies in exactly the block the chain assigns to it -/
+theorem blockPairs_cover (l : List Nat) : ∀ a, ∀ t, a ≤ t → t < lastOf a l →
+    ∃ ae ∈ blockPairs (a :: l), ae.1 ≤ t ∧ t < ae.2 := by
+  induction l with
+  | nil => intro a t h1 h2; simp [lastOf] at h2; omega
+  | cons b l ih =>
+    intro a t h1 h2
+    rw [blockPairs_cons2]
+    by_cases ht : t < b
+    · exact ⟨(a, b), by simp, h1, ht⟩
+    · obtain ⟨ae, hae, h3⟩ := ih b t (by omega) h2
+      exact ⟨ae, List.mem_cons_of_mem _ hae, h3⟩
 
 /-! ### bounds -/
 
@@ -312,8 +333,30 @@ theorem blocksOf_ok (p : StorageP) (n : Nat) (bl : List (Nat × Nat)) (h : block
 
 /-! ### from satisfied rows to inequalities -/
 
+/-- the holding-duration indicators lie in `[0,1]` (their bounds) -/
+def Storage.IndOK (p : StorageP) (n : Nat) (x : Vec) : Prop :=
+  ∀ i, i < n → 0 ≤ x (mHold p n + i) ∧ x (mHold p n + i) ≤ 1
+
+/-- with a maximum holding duration the "full" row of step `i` reads
+    `net volume since block start − level_max_i·ind_i ≤ b_i − level_max_i` -/
+theorem upper_hold_ineq (p : StorageP) (g : Grid) (n : Nat) (x : Vec) (a e i : Nat) (d : Rat)
+    (hmh : p.maxStoreDuration = some d) (hai : a ≤ i) (hu : (upperRow p g n a e i).Sat x) :
+    sumTo (flow p n x) (i + 1) - sumTo (flow p n x) a - levelMax p e i * x (mHold p n + i)
+      ≤ upRhs p g a e i - levelMax p e i := by
+  unfold upperRow at hu
+  rw [hmh] at hu
+  simp only [Row.Sat, Row.eval, List.map_append, List.sum_append, List.map_cons, List.map_nil, List.sum_cons,
+    List.sum_nil] at hu
+  have he := eval_levelCoeffs p n a i x 0 .U
+  unfold Row.eval at he
+  simp only at he
+  have hi : a + (i + 1 - a) = i + 1 := by omega
+  rw [he, hi] at hu
+  grind
+
 theorem levelIneq_of_rows (p : StorageP) (g : Grid) (n : Nat) (x : Vec) (bl : List (Nat × Nat))
-    (hmh : p.maxStoreDuration = none)
+    (hend : 0 ≤ p.endLevel ∧ p.endLevel ≤ p.size) (hind : p.maxStoreDuration.isSome = true → IndOK p n x)
+    (hbl : ∀ ae ∈ bl, ae.2 ≤ n)
     (hU : ∀ r ∈ upperRows p g n bl, r.Sat x) (hL : ∀ r ∈ lowerRows p g n bl, r.Sat x) :
     ∀ ae ∈ bl, LevelIneq p g n x ae.1 ae.2 := by
   intro ae hae i h1 h2
@@ -321,15 +364,70 @@ theorem levelIneq_of_rows (p : StorageP) (g : Grid) (n : Nat) (x : Vec) (bl : Li
   have hl := hL _ (mem_lowerRows p g n bl ae hae i h1 h2)
   have hi : ae.1 + (i + 1 - ae.1) = i + 1 := by omega
   constructor
-  · unfold upperRow at hu
-    rw [hmh] at hu
-    simp only [Row.Sat] at hu
-    rw [eval_levelCoeffs, hi] at hu
-    exact hu
+  · cases hmh : p.maxStoreDuration with
+    | none =>
+      unfold upperRow at hu
+      rw [hmh] at hu
+      simp only [Row.Sat] at hu
+      rw [eval_levelCoeffs, hi] at hu
+      exact hu
+    | some d =>
+      have h3 := upper_hold_ineq p g n x ae.1 ae.2 i d hmh h1 hu
+      have hin : i < n := by have := hbl ae hae; omega
+      have hlm : 0 ≤ levelMax p ae.2 i := by
+        unfold levelMax; split
+        · exact hend.1
+        · exact Rat.le_trans hend.1 hend.2
+      have h4 := Rat.mul_le_mul_of_nonneg_left (hind (by simp [hmh]) i hin).2 hlm
+      grind
   · unfold lowerRow at hl
     simp only [Row.Sat] at hl
     rw [eval_levelCoeffs, hi] at hl
     exact hl
+
+/-- indicator 0 forces the level to be `≤ 0` (the repaired rows bound the level itself) -/
+theorem hold_zero (p : StorageP) (g : Grid) (n : Nat) (x : Vec) (a e t : Nat) (d : Rat)
+    (hmh : p.maxStoreDuration = some d) (hat : a ≤ t) (h0 : lev p g n x a = blockStart p a)
+    (hu : (upperRow p g n a e t).Sat x) (hind : x (mHold p n + t) = 0) : lev p g n x (t + 1) ≤ 0 := by
+  have h3 := upper_hold_ineq p g n x a e t d hmh hat hu
+  rw [hind] at h3
+  unfold lev at h0 ⊢
+  unfold upRhs levelMax blockInfl at h3
+  split at h3 <;> grind
+
+/-- a 0/1 family whose sum stays below its length contains a 0 -/
+theorem exists_zero_of_sum (sel : List Nat) (y : Nat → Rat) (h01 : ∀ k ∈ sel, y k = 0 ∨ y k = 1)
+    (hs : (sel.map y).sum ≤ (sel.length : Rat) - 1) : ∃ k ∈ sel, y k = 0 := by
+  induction sel with
+  | nil => simp at hs; exfalso; grind
+  | cons a sel ih =>
+    rcases h01 a (by simp) with h | h
+    · exact ⟨a, by simp, h⟩
+    · have hs' : (sel.map y).sum ≤ (sel.length : Rat) - 1 := by
+        simp only [List.map_cons, List.sum_cons, List.length_cons, h] at hs
+        have : ((sel.length + 1 : Nat) : Rat) = (sel.length : Rat) + 1 := by simp
+        rw [this] at hs
+        grind
+      obtain ⟨k, hk, hk0⟩ := ih (fun k hk => h01 k (List.mem_cons_of_mem _ hk)) hs'
+      exact ⟨k, List.mem_cons_of_mem _ hk, hk0⟩
+
+/-- the window of a hold row reaches beyond the limit: it contains a step at which the cumulated
+    length since the window start exceeds `d`, all members are relative positions inside the window -/
+theorem holdWindow_exceeds (g : Grid) (n : Nat) (d : Rat) (i : Nat) (sel : List Nat)
+    (h : holdWindow g n d i = some sel) : ∃ k0 ∈ sel, d < cumDtFrom g i k0 := by
+  unfold holdWindow at h
+  simp only at h
+  split at h
+  · cases h
+  · rename_i k0 hk0
+    cases h
+    have hp := List.find?_some hk0
+    have hm := List.mem_of_find?_eq_some hk0
+    refine ⟨k0, ?_, ?_⟩
+    · apply List.mem_filter.mpr
+      exact ⟨hm, by simp⟩
+    · simp only [Bool.not_eq_true', decide_eq_false_iff_not] at hp
+      exact Rat.not_le.mp hp
 
 /-- the lower fill-level rows alone (they are not touched by the holding-duration option) -/
 theorem lowerIneq_of_rows (p : StorageP) (g : Grid) (n : Nat) (x : Vec) (bl : List (Nat × Nat))
